@@ -258,6 +258,28 @@ def _install_format() -> None:
 
     _cc._PATCH_REGISTRATIONS[format] = _format
 
+    # str(exc): BaseException.__str__ is a C slot that needs a real str and therefore realises a
+    # symbolic message (e.g. `exc_info=not str(err)` in report_fatal_error with a symbolic device
+    # name in the text).  For exception types that do not override __str__, str(exc) with exactly one
+    # argument is str(args[0]): return the symbolic string itself.
+    _stock_str = _cc._PATCH_REGISTRATIONS.get(str)
+
+    def _str(*a, **kw):
+        if len(a) == 1 and not kw:
+            obj = a[0]
+            with NoTracing():
+                plain_exc = isinstance(obj, BaseException) and type(obj).__str__ is BaseException.__str__
+                args = obj.args if plain_exc else ()
+                one_sym = plain_exc and len(args) == 1 and isinstance(args[0], bl.AnySymbolicStr)
+            if one_sym:
+                return args[0]
+        if len(a) == 1 and not kw and _stock_str is not None:
+            return _stock_str(*a)
+        with NoTracing():  # str() / str(b, encoding): the real constructor (a traced call would re-enter this patch)
+            return str(*a, **kw)
+
+    _cc._PATCH_REGISTRATIONS[str] = _str
+
 
 def install() -> None:
     global _INSTALLED
